@@ -145,7 +145,10 @@ def parse_template(path):
         if st.startswith('//@'):
             body = st[3:].strip()
             try:
-                toks = shlex.split(body, posix=True)
+                if body.startswith('obligation'):
+                    toks = body.split(':', 1)[0].split()
+                else:
+                    toks = shlex.split(body, posix=True)
             except ValueError as e:
                 raise WeaveError('%s:%d: bad directive quoting: %s' % (path, i + 1, e))
             if not toks:
@@ -189,6 +192,9 @@ def parse_template(path):
                         raise WeaveError('%s:%d: contract %s not found in %s' % (path, i + 1, alias, toks[1]))
                     stub = Extract(found.file, found.path, found.alias, None, i + 1)
                     stub.directives = [d2 for d2 in found.directives if d2[0] in ('result', 'spec', 'sync', 'rename')]
+                    if 'only' in toks:
+                        labels = toks[toks.index('only') + 1].split(',')
+                        stub.directives = [filter_spec(d2, labels) if d2[0] == 'spec' else d2 for d2 in stub.directives]
                     stub.stub_of = u2['name']
                     if 'props' in toks:
                         kk = toks.index('props')
@@ -234,6 +240,29 @@ def parse_template(path):
     if cur is not None:
         raise WeaveError('%s: unterminated extract block (line %d)' % (path, cur.tline))
     return unit, out
+
+
+def filter_spec(d, labels):
+    """keep only the labelled clauses of a spec payload (plus all requires): used by `use-contract ... only a,b`"""
+    name, args, payload, tline, raw = d
+    text, spans, clauses = parse_clauses(payload, 'x', [])
+    keep = {}
+    for (a, b, cl) in spans:
+        cid = cl.id.split('#', 1)[1]
+        if cl.kind == 'requires' or cid in labels:
+            keep.setdefault(cl.kind, []).append((cid, text[a:b]))
+    found = {cid for v in keep.values() for cid, _ in v}
+    for l in labels:
+        if l not in found:
+            raise WeaveError('use-contract: clause %s not found' % l)
+    out = []
+    for kw in ('requires', 'ensures'):
+        if kw in keep:
+            out.append(kw)
+            for cid, t in keep[kw]:
+                out.append('// [%s]' % cid)
+                out.append(t + ',')
+    return (name, args, out, tline, raw)
 
 
 def default_alias(ipath):
@@ -327,6 +356,35 @@ def drop_cfg(code):
         code = code[:a] + code[k:]
         dropped += 1
     return code, dropped
+
+
+TOKEN = re.compile(r"[A-Za-z_][A-Za-z0-9_]*|\d+|\S")
+
+
+def tokens_of(code):
+    m = mask(code)
+    # keep string literal contents out (masked), comments out
+    return TOKEN.findall(m)
+
+
+def is_subsequence(cur, ref):
+    it = iter(ref)
+    return all(any(t == r for r in it) for t in cur)
+
+
+PINNED = None
+
+
+def pinned_tokens():
+    global PINNED
+    if PINNED is None:
+        import json
+        p = os.path.join(os.path.dirname(os.path.dirname(os.path.abspath(__file__))), 'contracts', 'pinned_tokens.json')
+        try:
+            PINNED = json.load(open(p))
+        except Exception:
+            PINNED = {}
+    return PINNED
 
 
 class Edit:
@@ -436,7 +494,7 @@ def weave_extract(ub, ex, rf, repo_root):
         rec['transformations'].append({'rule': 'CONTRACT', 'what': 'body not verified here: seen only through the contract proved in unit %s' % stub_of})
     lifted = None
     for d in ex.directives:
-        if d[0] == 'lift':
+        if d[0] in ('lift', 'lift-loop'):
             lifted = d
     if lifted is not None:
         code = do_lift(code, lifted, rec)
@@ -451,9 +509,19 @@ def weave_extract(ub, ex, rf, repo_root):
     body_open = None
     if item.kind == 'fn' or lifted is not None:
         body_open = find_fn_body(m)
-    for d in ex.directives:
+    pin_key = '%s::%s' % (ex.file, ex.path)
+    rec['tokens'] = tokens_of(src)
+    pinned = pinned_tokens().get(pin_key)
+    deletion_only = pinned is not None and rec['tokens'] != pinned and is_subsequence(rec['tokens'], pinned)
+    rec['lost_anchors'] = []
+    directives = list(ex.directives)
+    di = 0
+    while di < len(directives):
+      d = directives[di]
+      di += 1
+      try:
         name, args, payload, tline, raw = d
-        if name == 'lift':
+        if name in ('lift', 'lift-loop'):
             continue
         if name == 'result':
             result_name = args[0]
@@ -557,6 +625,28 @@ def weave_extract(ub, ex, rf, repo_root):
             rec['clauses'].extend(c.id for c in clauses)
             edits.append(Edit(pos, pos, '\n' + text + '\n', ('clauses', [(a + 0, b + 0, c) for a, b, c in spans])))
             rec['transformations'].append({'rule': 'E7', 'what': 'ghost code %s %r' % (mode, rest[1] if len(rest) > 1 else '')})
+        elif name == 'cut':
+            # E8: one loop statement replaced by a call to a prelude stub with an assumed contract
+            n, rest = parse_occ(args)
+            anchor = rest[0]
+            k = rest.index('=>')
+            rep = rest[k + 1]
+            pos = nth_occurrence(m, anchor, n, '%s cut anchor' % alias)
+            kk = pos
+            while kk < len(m):
+                if m[kk] in '([':
+                    kk = match_close(m, kk) + 1
+                    continue
+                if m[kk] == '{':
+                    break
+                kk += 1
+            else:
+                raise WeaveError('lost anchor: cut loop body %r in %s' % (anchor, alias))
+            e = match_close(m, kk) + 1
+            edits.append(Edit(pos, e, rep, None))
+            rec['transformations'].append({'rule': 'E8', 'what': 'CUT: loop %r (%d source lines) replaced by `%s` (assumed contract)' % (
+                anchor, code.count('\n', pos, e) + 1, rep)})
+            rec.setdefault('cuts', []).append({'loop': anchor, 'replacement': rep, 'lines': code.count('\n', pos, e) + 1})
         elif name == 'rewrite':
             rule = args[0]
             k = args.index('=>')
@@ -583,6 +673,13 @@ def weave_extract(ub, ex, rf, repo_root):
             rec['transformations'].append({'rule': rule, 'what': 'rewrite /%s/ => %r (%d occurrence(s))' % (pat, rep, cnt)})
         else:
             raise WeaveError('unknown sub-directive %s (template line %d)' % (name, tline))
+      except WeaveError as e:
+        # DESIGN section 8: an anchor lost because code was only DELETED (current token sequence is a subsequence of the
+        # pinned one) does not stop the check: the annotation is dropped and verification is attempted with the rest
+        if deletion_only and str(e).startswith('lost anchor') and d[0] in ('insert', 'loop', 'closure', 'cut', 'rewrite'):
+            rec['lost_anchors'].append('%s: %s' % (d[0], e))
+            continue
+        raise
 
     # header edits (fn only)
     if body_open is not None:
@@ -863,12 +960,38 @@ def do_lift(code, d, rec):
     name, args, payload, tline, raw = d
     n, rest = parse_occ(args)
     anchor = rest[0]
-    k = rest.index('fn')
-    sig = raw[raw.index(' fn ') + 1:]
+    if ' :: ' in raw:
+        sig = raw.split(' :: ', 1)[1].strip()
+    else:
+        sig = raw[raw.index(' fn ') + 1:]
     m = mask(code)
     pos = nth_occurrence(m, anchor, n, 'lift anchor')
     b = m.find('{', pos + len(anchor) - 1) if not anchor.rstrip().endswith('{') else pos + len(anchor.rstrip()) - 1
     e = match_close(m, b)
     body = code[b:e + 1]
-    rec['transformations'].append({'rule': 'E9', 'what': 'block after %r lifted to `%s`' % (anchor, sig)})
+    if name == 'lift-loop':
+        bm = mask(body)
+        if re.search(r'\b(for|while|loop)\b', bm[1:]) and re.search(r'\bcontinue\b', bm):
+            # continue inside a nested loop would change meaning
+            inner = [mm.start() for mm in re.finditer(r'\b(for|while|loop)\b', bm)]
+            for mm in re.finditer(r'\bcontinue\b', bm):
+                for st in inner:
+                    ob = bm.find('{', st)
+                    if ob >= 0 and ob < mm.start() <= match_close(bm, ob):
+                        raise WeaveError('E14: `continue` inside a nested loop of %r' % anchor)
+        if re.search(r'\bbreak\b', bm) or re.search(r'\breturn\b', bm):
+            raise WeaveError('E14: loop body of %r contains break/return' % anchor)
+        out = []
+        last = 0
+        n = 0
+        for mm in re.finditer(r'\bcontinue\b', bm):
+            out.append(body[last:mm.start()])
+            out.append('return')
+            last = mm.end()
+            n += 1
+        out.append(body[last:])
+        body = ''.join(out)
+        rec['transformations'].append({'rule': 'E14', 'what': 'body of loop %r lifted to `%s` (%d `continue` -> `return`); the loop shell `for x in xs { body(x) }` itself is not verified (Verus for-loops do not support continue)' % (anchor, sig, n)})
+    else:
+        rec['transformations'].append({'rule': 'E9', 'what': 'block after %r lifted to `%s`' % (anchor, sig)})
     return sig + ' ' + body
